@@ -1109,7 +1109,8 @@ fn main() {
             run_one(&mut out, fsk, nod, srv_mode, &p.info, Some(p), sock, Some((&mut r, 700)), None);
         } else {
             let d = &dirs[(i as usize) % 5]; // the small ones
-            run_one(&mut out, fsk, nod, srv_mode, d, None, sock, Some((&mut r, 900)), None);
+            let budget = 6 * d.listing.len() + 300;
+            run_one(&mut out, fsk, nod, srv_mode, d, None, sock, Some((&mut r, budget)), None);
         }
     }
     for i in 0..nbig {
